@@ -277,7 +277,7 @@ func tlvReq(path string, t ref.TLV) []byte {
 }
 
 func (w *accWorld) doStep(conns map[string]*accConn, st accStep) (J, error) {
-	out := J{"c": st.C, "a": st.A, "p": st.P, "f": st.F}
+	out := J{"c": st.C, "a": st.A, "p": st.P, "f": st.F, "injserved": false}
 	var r reply
 	switch st.A {
 	case "LocalSet":
